@@ -236,6 +236,18 @@ def verify_unit(unit, tier):
         if j is None:
             raise Undecided("verus produced no JSON for unit %s: %s" % (unit, raw[-400:]))
         fails, undec = classify(diags, mp, unit)
+        # a verifier that crashed has verified nothing, whatever diagnostics it printed before: its own summary must
+        # agree with the diagnostics (Verus 0.2026.09.13 panics in ast_to_sst on e.g. a `return` inside a match guard arm
+        # used as a let initialiser, then reports verified=0 errors=0 while the canary diagnostic is still emitted)
+        res = j.get("verification-results", {})
+        panic = next((l.strip() for l in raw.splitlines() if "panicked at" in l), None)
+        if panic is not None:
+            nxt = raw[raw.index(panic) + len(panic):].strip().splitlines()
+            undec.append(("verifier-crash", "verus panicked: %s %s" % (panic[:160], nxt[0][:120] if nxt else ""), "", []))
+        elif fails and res.get("errors", 0) == 0 and not res.get("encountered-vir-error", False):
+            undec.append(("verifier-crash", "verus printed failures but its summary counts none (verified=%s errors=%s)" % (res.get("verified"), res.get("errors")), "", []))
+        elif res.get("verified", 0) == 0 and not undec:
+            undec.append(("verifier-crash", "verus verified no function of unit %s" % unit, "", []))
         return {"j": j, "fails": fails, "undec": undec, "cmd": cmd, "dt": dt}
 
     with concurrent.futures.ThreadPoolExecutor(max_workers=4) as ex:
@@ -307,6 +319,8 @@ def probe_unit(unit, extra):
     rc, j, diags, raw, dt, cmd = verus(path, rlimit=60, extra=ex)
     if j is None:
         raise Undecided("verus produced no JSON for the probe run of unit %s: %s" % (unit, raw[-300:]))
+    if "panicked at" in raw:
+        raise Undecided("verus panicked in the probe run of unit %s: %s" % (unit, next(l.strip() for l in raw.splitlines() if "panicked at" in l)[:200]))
     plist = [r for r in mp["regions"] if r["kind"] == "probe"]
     refuted, budget_items = set(), set()
     for d in diags:
